@@ -13,9 +13,6 @@ sys.path.insert(0, VERIF)
 ALL = ['C%02d' % i for i in range(1, 21)]
 
 NOT_APPLICABLE = {
-    'C10': 'quantifies over seeds and real-valued initial kernels (sortedness '
-           'and range of sampled values are runtime facts); structural residue '
-           'is covered under C16/C03 (DESIGN 0)',
     'C14': 'equality of two implementations up to rounding needs expression '
            'equivalence (solver or execution); syntactic normal forms would '
            'raise alarms on equivalent rewrites (DESIGN 0)',
